@@ -119,6 +119,13 @@ def run(tier, seed):
         runs.append(("scanstorm_%d" % i, [fxa, "conc", "--mode", "scanstorm", "--out", os.path.join(rd, "asans_%d.ndjson" % i),
                                           "--seed", str(rng.randrange(1 << 30)), "--millis", "2500" if tier == "quick" else "6000",
                                           "--keys", str([16, 700, 64][i % 3]), "--stallmask", str([63, 31, 127][i % 3])]))
+    # scans against REMOVAL and re-creation of the keys under their cursor (delete + insert), long keys that differ in their
+    # last bytes only (a scan's comparisons are slow, the cursor stays on a node for long); no stalls: raw speed
+    for i in range(3 if tier == "quick" else 10):
+        runs.append(("delstorm_%d" % i, [[fxa, fxv, fxa][i % 3], "conc", "--mode", "scanstorm", "--out", os.path.join(rd, "asand_%d.ndjson" % i),
+                                         "--seed", str(rng.randrange(1 << 30)), "--millis", "2500" if tier == "quick" else "6000",
+                                         "--keys", str([2, 3, 6][i % 3]), "--klen", str([90000, 40000, 60000][i % 3]), "--writers", "0",
+                                         "--deleters", str([1, 2, 2][i % 3]), "--scanners", "3", "--stallmask", "0", "--stallus", "0"]))
     # readers spinning on hot keys of a persistent store while a writer replaces them and flushes: every read races with
     # the flush worker releasing the value of the generation it has just written
     for i in range(2 if tier == "quick" else 6):
